@@ -32,7 +32,8 @@ SPEC = {
     "at recipe and function level + direct oracle on unpatched runs",
     "level_text": "Machine-checked proof, for every (min,max,step), every weight vector, every pair of date / datetime "
     "bounds and every admissible draw, that the model's results lie on the lattice / in the support / between the "
-    "bounds and that both ends are attained; after the fix commits cfed176 / f914bf1 / e0d1353 the statements about "
+    "bounds and that both ends are attained (for random_number also for every way a recipe can write the arguments, "
+    "6be3bcb / D54); after the fix commits cfed176 / f914bf1 / e0d1353 the statements about "
     "zero probabilities, written UTC offsets, cache aliasing and equal bounds are proved at full strength (D09, D08, "
     "D39, D37 are regression inputs); after 919a3ea and a6412d5 the two-sided bound start <= v <= end holds for every "
     "spec, offset, fraction and draw (D38, D50 are regression inputs); no C11 finding is open; the model is tied to the source by bridging lemmas over pins regenerated on every "
@@ -207,11 +208,15 @@ def classify_error(e):
         return "zero_step"
     if "Total of weights must be greater than zero" in msgs:
         return "total_not_positive"
+    if "invalid literal for int()" in msgs:
+        return "value_error"
     if ("unsupported operand type" in msgs or "can only concatenate str" in msgs
             or "cannot be interpreted as an integer" in msgs or any(isinstance(x, TypeError) for x in _chain(e))):
         return "type_error"
     if "End date is before start date" in msgs:
         return "order_error"
+    if "invalid literal for int()" in msgs:
+        return "value_error"
     if "No choices supplied" in msgs:
         return "no_choices"
     return "other:" + type(e).__name__ + ":" + str(e)[:120].replace("\n", " ")
@@ -290,6 +295,9 @@ def _rn_recipe(case, n):
         lines = ["x:", "  random_number:", f"    min: {fx(mn)}", f"    max: {fx(mx)}"]
         if not omit:
             lines.append(f"    step: {fx(st)}")
+    elif case.get("raw"):
+        a, b, c = [x if isinstance(x, int) else f'"{x}"' for x in _raw_args(case)]
+        lines = ["x:", "  random_number:", f"    min: {a}", f"    max: {b}", f"    step: {c}"]
     else:
         lines = ["x:", "  random_number:", f"    min: {mn}", f"    max: {mx}"]
         if not omit:
@@ -306,6 +314,15 @@ def _value_type(v):
     return "other"
 
 
+def _raw_args(case):
+    """The three Python objects handed over when the case says how each argument is written:
+    'int' | 'str' (the decimal text of the integer) | 'bad:<text>' (a non-numeric string)."""
+    out = []
+    for v, kind in zip((case["min"], case["max"], case["step"]), case["raw"]):
+        out.append(v if kind == "int" else str(v) if kind == "str" else kind[4:])
+    return out
+
+
 def real_rn(case, rng):
     """-> {'outs': [['value', x] | ['error', kind]], 'draws': [(n, k)]}"""
     mn, mx, st = case["min"], case["max"], case["step"]
@@ -317,7 +334,9 @@ def real_rn(case, rng):
             outs = []
             for _ in range(n):
                 try:
-                    if st == 1 and case.get("omit_step"):
+                    if case.get("raw"):
+                        v = f.random_number(*_raw_args(case))
+                    elif st == 1 and case.get("omit_step"):
                         v = f.random_number(mn, mx)
                     else:
                         v = f.random_number(mn, mx, st)
@@ -344,6 +363,15 @@ def real_rn(case, rng):
 def oracle_rn(rep, case, real):
     mn, mx, st = case["min"], case["max"], case["step"]
     outs = real["outs"]
+    if any(k.startswith("bad:") for k in case.get("raw") or []):
+        rep.count("rn:non-numeric-string-argument")
+        for o in outs:
+            if o[0] != "error" or o[1].startswith("internal"):
+                rep.violation("C11:random-number-nonnumeric-argument-not-rejected",
+                              f"random_number with arguments {_raw_args(case)} gave {o} instead of a recipe error",
+                              case, "a recipe error", o)
+                return
+        return
     if st < 1:
         rep.count("rn:step<1 (property silent)")
         return
@@ -398,6 +426,8 @@ def model_reqs_rn(case, real):
         req = {"m": "c11.random_number", "min": case["min"], "max": case["max"], "step": case["step"], "k": k}
         if case["via"] == "fargs" and not case.get("v3"):
             req["mode"] = "formula_v2"
+        if case.get("raw"):
+            req["raw"] = _raw_args(case)
         reqs.append(req)
     return reqs
 
@@ -1231,6 +1261,20 @@ def gen_rn(rng, forced=True):
             mn, mx = mx, mn - rng.choice([0, 1, 2])  # a range that is non-empty going down
     else:
         st = 0
+    if rng.random() < 0.06:
+        # arguments that arrive as strings: the decimal text of the integer (converted since 6be3bcb) or a
+        # non-numeric string (ValueError -> recipe error)
+        raw = [rng.choice(["int", "str", "str"]) for _ in range(3)]
+        if rng.random() < 0.35:
+            raw[rng.randrange(3)] = "bad:" + rng.choice(["abc", "1.5", "x1", "12a", "--3"])
+        if "str" not in raw and not any(k.startswith("bad:") for k in raw):
+            raw[0] = "str"
+        via = rng.choice(["func", "recipe"])
+        if via == "recipe":
+            # `"1.5"` would become a float in the default dialect (look_for_number): not a string argument
+            raw = ["bad:x15" if k == "bad:1.5" else k for k in raw]
+        return {"kind": "rn", "via": via, "min": mn, "max": mx, "step": st, "raw": raw,
+                "v3": rng.random() < 0.5, "draws": _draws(rng, forced)}
     # the ways a recipe can write it: function call, literal YAML ints, formula-valued arguments, inline call
     via = rng.choice(["func", "func", "recipe", "fargs", "fargs", "formula", "formula"])
     case = {"kind": "rn", "via": via, "min": mn, "max": mx, "step": st, "draws": _draws(rng, forced)}
@@ -1240,8 +1284,6 @@ def gen_rn(rng, forced=True):
         case["v3"] = rng.random() < 0.4
     if via in ("fargs", "formula"):
         case["argform"] = rng.choice(["lit", "pow", "var"] if big else ["lit", "lit", "var"])
-        if via == "fargs" and (mn <= 0 or mx <= 0 or st <= 0) and not case["v3"] and rng.random() < 0.8:
-            case["v3"] = True  # keep the D54 inputs (non-positive formula arguments in v2) a small share
         if case["argform"] == "var":
             case["big"] = rng.choice(_BIG_BASES) if big else rng.choice([1, 10, 1000])
             if mn < 0:
@@ -1510,6 +1552,10 @@ def fixed_cases():
                     "draws": ["lo", "hi"]})
         out.append({"kind": "rn", "via": via, "min": 2**64 + 1, "max": 10**20 + 7, "step": 2**32 + 1, "argform": "pow",
                     "v3": False, "draws": ["lo", "hi", "mid"]})
+    out.append({"kind": "rn", "via": "recipe", "min": 1, "max": 3, "step": 1, "raw": ["bad:abc", "int", "int"], "v3": False, "draws": ["lo"]})
+    out.append({"kind": "rn", "via": "recipe", "min": 1, "max": 3, "step": 1, "raw": ["bad:abc", "int", "int"], "v3": True, "draws": ["lo"]})
+    out.append({"kind": "rn", "via": "func", "min": -5, "max": -3, "step": 1, "raw": ["str", "str", "str"], "draws": ["lo", "hi"]})
+    out.append({"kind": "rn", "via": "fargs", "min": 0, "max": 0, "step": 1, "argform": "lit", "v3": False, "draws": ["lo", "hi"]})
     out.append({"kind": "rn", "via": "formula", "min": -(2**53) - 9, "max": -(2**53) - 1, "step": 2, "argform": "pow",
                 "v3": False, "draws": ["lo", "hi", "mid"]})
     out.append({"kind": "rn", "via": "func", "min": 5, "max": 3, "step": 1, "draws": ["lo"]})
